@@ -606,7 +606,7 @@ class C10:
         checks = []
         outs, nxt = run2(fn=True, sel=True, idx=True)
         checks.append(("seq_label_fn given", outs, lambda o: o == [("call", Q["seq_label_fn"], (tags,), ())], "seq_label_fn(tags)"))
-        outs, _ = run2(empty=True, sel=True, idx=True)
+        outs, _ = run2(empty=True, sel=True, found=False, idx=True)  # among no tags none is found
         checks.append(("no tags", outs, lambda o: o == [Q["empty_label"]], "empty_label"))
         outs, nxt = run2(sel=True, found=True, idx=True)
         sel_ok = nxt is not None and nxt[2] and nxt[2][0][0] == "comp" and nxt[2][0][3][0][1] == tags and len(nxt[2]) == 2 and nxt[2][1] == NONE and \
